@@ -19,7 +19,7 @@ func init() {
 		Replay: replay,
 		Rule: "E1 over placements x prefix usages: modules a (prefix table: p->n1, q->n2) and b (p->n2, r->n1, a->a) are chosen so that the same prefix means different namespaces in the two modules and each module knows a prefix the other does not; a must, a when or a leafref path is placed directly in a, in a grouping of a used in a, in a grouping of a used from b, in an augment written in b into a's tree, in a typedef of a used from b (leafref), in a refine/augment inside b's uses of a's grouping, as a when on a uses of a foreign / local grouping or on an augment that contains a foreign uses, and in a deviation written in b; the expression is one of 12 (prefix p / q / r / unknown, unprefixed, two prefixes, syntactically invalid forms from C04's reject set). " +
 			"Expected verdict: compiles iff the expression is syntactically valid and every prefix is known in the module where the statement is textually written; the error must name that module's file. On success every Name-Push of the compiled machine must carry the namespace the textual module's import table gives (unprefixed: the namespace of the module the node ends up in) and GetExpr() must be the source text. Non-trivial = every case.",
-		Bound: map[string]string{"quick": "9 placements x 3 statement kinds x 12 expressions; 4 placements of a when written on a uses / augment x 12 expressions; 4 placements x 9 kind pairs x 5x4 expression pairs x 2 orders with a second statement written in b itself", "thorough": "same"},
+		Bound: map[string]string{"quick": "9 placements x 4 statement kinds (must, a second must after a valid one, when, leafref path) x 12 expressions; 4 placements of a when written on a uses / augment x 12 expressions; 4 placements x 9 kind pairs x 5x4 expression pairs x 2 orders with a second statement written in b itself", "thorough": "same"},
 		Assumptions: []string{"for statements added by a deviation the namespace of unprefixed names is UNSPECIFIED (the node stays in the target module, the text is in the deviating module)"},
 	})
 }
@@ -147,6 +147,8 @@ func stmtFor(kind string, i int) (string, expr) {
 		return fmt.Sprintf("leaf w { type string; when %q; }", exprs[i].Text), exprs[i]
 	case "rawwhen":
 		return fmt.Sprintf("when %q;", exprs[i].Text), exprs[i]
+	case "must2":
+		return fmt.Sprintf("must \"k\"; must %q;", exprs[i].Text), exprs[i]
 	}
 	return fmt.Sprintf("leaf lr { type leafref { path %q; } }", paths[i].Text), paths[i]
 }
@@ -171,6 +173,10 @@ func build(cr caseRec) (mods map[string]string, pl placement, e expr, ok bool) {
 	case "rawwhen":
 		e = exprs[cr.Expr]
 		stmt = fmt.Sprintf("when %q;", e.Text)
+	case "must2":
+		// a second must on the same node, after a valid one
+		e = exprs[cr.Expr]
+		stmt = fmt.Sprintf("must \"k\"; must %q;", e.Text)
 	case "path":
 		e = paths[cr.Expr]
 		stmt = fmt.Sprintf("leaf lr { type leafref { path %q; } }", e.Text)
@@ -360,15 +366,18 @@ func pfxClass(e expr) string {
 
 func run(c *engine.Ctx) {
 	for _, pl := range placements() {
-		for _, kind := range []string{"must", "when", "path", "rawwhen"} {
+		for _, kind := range []string{"must", "must2", "when", "path", "rawwhen"} {
 			if strings.HasPrefix(pl.Name, "when-on-") != (kind == "rawwhen") {
+				continue
+			}
+			if kind == "must2" && (pl.Name == "typedef-of-a-used-from-b" || pl.Name == "deviation-from-b") {
 				continue
 			}
 			n := len(exprs)
 			if kind == "path" {
 				n = len(paths)
 			}
-			if pl.Name == "typedef-of-a-used-from-b" && kind != "path" || pl.Name == "deviation-from-b" && kind == "when" || pl.Name == "refine-must-in-b" && kind != "must" {
+			if pl.Name == "typedef-of-a-used-from-b" && kind != "path" || pl.Name == "deviation-from-b" && kind == "when" || pl.Name == "refine-must-in-b" && kind != "must" && kind != "must2" {
 				continue
 			}
 			for i := 0; i < n; i++ {
